@@ -14,3 +14,9 @@ package tptaddr
 //@   ensures ret ==> d.DialTptAddrSourcePeerId() == as(other, DialTptAddr).DialTptAddrSourcePeerId()
 //@   ensures ret ==> d.DialTptAddrTargetPeerId() == as(other, DialTptAddr).DialTptAddrTargetPeerId()
 //@   ensures ret ==> d.DialTptAddrDialerOpts().GetAddress() == as(other, DialTptAddr).DialTptAddrDialerOpts().GetAddress()
+
+// C38: a transport address is "{transport-id}|{address}" with both parts non-empty; the parts
+// returned re-assemble to the input, and the transport ID contains no delimiter.
+//@ func ParseTptAddr
+//@   ensures err == nil ==> transportID != "" && addr != "" && tptAddr == transportID ++ "|" ++ addr && !strContains(transportID, "|")
+//@   ensures err != nil ==> transportID == "" && addr == ""
